@@ -188,6 +188,29 @@ class Store:
         return [tr] if val else [f]
 
 
+def refined_succs(store, b, st):
+    """[(successor, store on that edge)]: like feasible_succs, and an edge of a `match` on an enum local records which variant it is."""
+    body = store.body
+    out = []
+    t = body.term(b)
+    succs = store.feasible_succs(b, st)
+    info = None
+    src = None
+    if t and t["k"] == "switch" and t.get("discr_ty") != "bool":
+        info = core.switch_info(store.prog, body, b)
+        if info and info.get("kind") == "enum" and info.get("src") is not None and not info["src"]["p"]:
+            src = info["src"]["l"]
+    for nx in succs:
+        st2 = st
+        if src is not None:
+            names = [v for v, tgt in info["edges"].items() if tgt == nx]
+            if len(names) == 1:
+                st2 = dict(st)
+                st2[("var", src)] = names[0]
+        out.append((nx, st2))
+    return out
+
+
 def reach(body, starts, init=None, removed_nodes=(), removed_edges=(), reset_at=()):
     """Product reachability. `starts`: blocks entered with store `init` (dict). Returns dict block -> list of stores,
     and a parent map for witnesses. Blocks in `reset_at` forget the store on entry."""
